@@ -458,9 +458,17 @@ class YAMLSpecification(Specification):
         for error in errors:
             path = ".".join(str(key) for key in error.path)
             if error.validator == "additionalProperties":
-                unrecognized = (
-                    re.search(r"'.+'", error.message).group(0).strip("'")
-                )
+                unrecognized = re.search(r"'.+'", error.message)
+                if unrecognized:
+                    unrecognized = unrecognized.group(0).strip("'")
+                else:
+                    # The message quotes keys with repr(), which is not
+                    # 'key' for a key that contains a quote or is not a
+                    # string: name the offending keys from the instance.
+                    known = error.schema.get("properties", {})
+                    unrecognized = ", ".join(
+                        str(key) for key in error.instance if key not in known
+                    )
                 raise jsonschema.ValidationError(
                     "Unrecognized key '{0}' found in {1}.".format(
                         unrecognized, parent_key
